@@ -93,6 +93,78 @@ theorem C03_completion (waitExit : Bool) (v : Info) :
   unfold startEventResult
   cases hs : v.state <;> cases waitExit <;> cases he : v.expected <;> simp
 
+/-- **C03 (applications whose start_sequence is 0 are never started automatically).**  The automatic start of all applications
+    (`Starter.start_applications`) only stores applications with a strictly positive start_sequence that were never started or
+    are in failure; each is stored with `storeApplication`, whose plan leaves out the processes of sequence 0
+    (`C03_seq0_never_planned`). -/
+theorem C03_auto_start_positive_sequence (w : W) (a : Nat) :
+    a ∈ autoStartApps w ↔
+      a < w.acfg.length ∧ 0 < (w.acfg.getD a default).startSeq
+      ∧ (neverStarted w a = true ∨ (appFailures w a).1 = true ∨ (appFailures w a).2 = true) := by
+  unfold autoStartApps
+  simp only [List.mem_filter, List.mem_range, Bool.and_eq_true, Bool.or_eq_true, decide_eq_true_eq]
+  constructor
+  · rintro ⟨h1, h2, h3⟩; exact ⟨h1, h2, by rcases h3 with (h | h) | h <;> simp [h]⟩
+  · rintro ⟨h1, h2, h3⟩; exact ⟨h1, h2, by rcases h3 with h | h | h <;> simp [h]⟩
+
+/-- **C03 (applications in increasing start_sequence).**  The Starter picks the planned applications of the lowest sequence number
+    (`pickup_logic = min` at the application level too): no planned application has a lower one. -/
+theorem C03_application_pickup_lowest (w : W) (k : Nat) (h : minKey w.planned = some k) :
+    (∀ x ∈ w.planned, k ≤ x.1) ∧ (∃ x ∈ w.planned, x.1 = k) :=
+  C03_pickup_lowest w.planned k h
+
+/-! ## The STOP strategy over a whole application start -/
+
+def startedIn (outs : List Out) (q : Nat) : Bool := outs.any (fun o => match o with | .start q' _ _ _ _ => q' == q | _ => false)
+def stopAskedIn (outs : List Out) (q : Nat) : Bool := outs.any (fun o => match o with | .stop q' _ => q' == q | _ => false)
+def forcedFatalIn (outs : List Out) (p : Nat) : Bool := outs.any (fun o => match o with | .force p' .fatal _ _ => p' == p | _ => false)
+
+/-- the full-strength clause "STOP then stops it once in-flight starts end", on an application start from an idle Starter / Stopper
+    in which every requested process starts normally (`realStartApplication`): when a required process with the STOP strategy is
+    given up, every process the start requested (without wait_exit: it is RUNNING at the end) is asked to stop -/
+def C03_stop_strategy_applied_statement : Prop :=
+  ∀ (w : W) (a : Nat) (strat : Strategy), w.live = none → w.planned = [] → w.current = [] → w.splanned = [] → w.scurrent = [] →
+    ∀ p, (w.pcfg.getD p default).app = a → (w.pcfg.getD p default).required = true → (w.pcfg.getD p default).sfail = .stop →
+      forcedFatalIn (realStartApplication w a strat) p = true →
+      ∀ q, (w.pcfg.getD q default).waitExit = false → startedIn (realStartApplication w a strat) q = true →
+        stopAskedIn (realStartApplication w a strat) q = true
+
+def sInfo : Info := { state := .stopped, expected := true, ltime := 0, etime := 0, nowm := 0, disabled := false }
+
+/-- one instance; application 0: p0 (sequence 1) known on the instance, p1 (sequence 2, required, STOP) known nowhere -/
+def stopW : W :=
+  { ninst := 1, me := 0, node := [0], instRunning := [true], counter := [0],
+    pcfg := [{ app := 0, startSeq := 1, required := false, waitExit := false, load := 0, sfail := .cont, idents := none, startsecs := 1 },
+             { app := 0, startSeq := 2, required := true, waitExit := false, load := 0, sfail := .stop, idents := none, startsecs := 1 }],
+    acfg := [{ startSeq := 1, strategy := .config }],
+    procs := [{ infos := [(0, sInfo)], state := .stopped }, { infos := [], state := .stopped }] }
+
+/-- what the code does on the witness: p0 is started, p1 is refused for lack of resource, and NO stop is requested: the forced FATAL
+    re-enters `Commander.next` while the job has nothing planned nor in progress, the job is dropped (`after` sees no stop request
+    yet), and only then `process_failure` records the stop request, on a job nobody looks at any more -/
+theorem C03_stop_strategy_witness :
+    startedIn (realStartApplication stopW 0 .config) 0 = true ∧ forcedFatalIn (realStartApplication stopW 0 .config) 1 = true
+    ∧ stopAskedIn (realStartApplication stopW 0 .config) 0 = false := by decide +kernel
+
+/-- Known finding `C03:stop-strategy-dropped-with-job` (same root cause as `C10:start-request-untracked`). -/
+theorem C03_stop_strategy_applied_refuted : ¬ C03_stop_strategy_applied_statement := by
+  intro h
+  have := h stopW 0 .config rfl rfl rfl rfl rfl 1 rfl rfl rfl C03_stop_strategy_witness.2.1 0 rfl C03_stop_strategy_witness.1
+  rw [C03_stop_strategy_witness.2.2] at this
+  cases this
+
+/-- **C03 (STOP strategy — partial).**  The decision itself is right (`C03_failure_strategy`: a STOP failure empties the plan and
+    records the stop request) and is applied when the job outlives the forced event: on the witness world with one more sequence
+    group planned after the failing one (p2, sequence 3), p0 is asked to stop and p2 is never requested — a finite check; the general
+    theorem needs an invariant of the re-entrant commander, not done. -/
+theorem C03_stop_strategy_applied_partial :
+    let w : W := { stopW with pcfg := stopW.pcfg ++ [{ app := 0, startSeq := 3, required := false, waitExit := false, load := 0,
+                                                       sfail := .cont, idents := none, startsecs := 1 }],
+                              procs := stopW.procs ++ [{ infos := [(0, sInfo)], state := .stopped }] }
+    startedIn (realStartApplication w 0 .config) 0 = true ∧ forcedFatalIn (realStartApplication w 0 .config) 1 = true
+    ∧ stopAskedIn (realStartApplication w 0 .config) 0 = true ∧ startedIn (realStartApplication w 0 .config) 2 = false := by
+  decide +kernel
+
 -- non-vacuity: a plan with two groups (sequence 0 left out)
 def exW : W :=
   { ninst := 1, me := 0, node := [0], instRunning := [true], counter := [0],
@@ -101,5 +173,7 @@ def exW : W :=
              { app := 0, startSeq := 1, required := true, waitExit := false, load := 0, sfail := .abort, idents := none, startsecs := 1 }],
     acfg := [{ startSeq := 1, strategy := .config }], procs := [{}, {}, {}] }
 example : (startPlan exW 0 .config).map (·.1) = [2, 1] ∧ minKey (startPlan exW 0 .config) = some 1 := by decide
+-- non-vacuity: the application (sequence 1, never started: no payload at all) is started automatically; with sequence 0 it is not
+example : autoStartApps exW = [0] ∧ autoStartApps { exW with acfg := [{ startSeq := 0, strategy := .config }] } = [] := by decide
 
 end Supv.Props.C03
